@@ -786,6 +786,9 @@ func init() {
 		if probe.Kind == "parse" {
 			return c14ParseReplayRun(raw)
 		}
+		if probe.Kind == "cli-race-pass" {
+			return "re-run ./check C14 quick: the free-running race-detector pass of the tool is not a stored schedule (the file names the command line)"
+		}
 		if probe.Kind == "cli" {
 			var cr c14cliReplay
 			json.Unmarshal(raw, &cr)
